@@ -1574,8 +1574,11 @@ impl<'a, 'b, W: Write> Serializer for &'a mut YamlSerializer<'b, W> {
         } else if name == NAME_TUPLE_COMMENTED {
             Ok(TupleSer::commented(self))
         } else {
-            // Treat as normal block sequence
-            Ok(TupleSer::normal(self))
+            // An ordinary tuple struct is written exactly like a tuple: as a sequence, laid out
+            // for the position it is in (top level, after a dash, after a key, inside flow).
+            let seq = self.serialize_seq(Some(_len))?;
+            let (depth, flow) = (seq.depth, seq.flow);
+            Ok(TupleSer::normal(seq.ser, depth, flow))
         }
     }
 
@@ -1839,12 +1842,19 @@ impl<'a, 'b, W: Write> SerializeSeq for SeqSer<'a, 'b, W> {
         Ok(())
     }
 
-    fn end(self) -> Result<()> {
+    fn end(mut self) -> Result<()> {
+        self.finish()
+    }
+}
+
+impl<'a, 'b, W: Write> SeqSer<'a, 'b, W> {
+    /// Close the sequence (the body of `SerializeSeq::end`; also used by the serializers of
+    /// tuple structs and tuple variants, which write their fields as a sequence).
+    fn finish(&mut self) -> Result<()> {
         if self.flow {
-            let me = self;
-            me.ser.out.write_str("]")?;
-            if me.ser.in_flow == 0 {
-                me.ser.newline()?;
+            self.ser.out.write_str("]")?;
+            if self.ser.in_flow == 0 {
+                self.ser.newline()?;
             }
         } else if self.first {
             // Empty block-style sequence.
@@ -1881,7 +1891,7 @@ impl<'a, 'b, W: Write> SerializeSeq for SeqSer<'a, 'b, W> {
 /// Serializer for tuple-structs.
 ///
 /// Used for three shapes:
-/// - Normal tuple-structs (treated like sequences in block style),
+/// - Normal tuple-structs (written exactly like tuples: as a sequence),
 /// - Internal strong-anchor payloads (`__yaml_anchor`),
 /// - Internal weak-anchor payloads (`__yaml_weak_anchor`).
 pub struct TupleSer<'a, 'b, W: Write> {
@@ -1891,7 +1901,7 @@ pub struct TupleSer<'a, 'b, W: Write> {
     kind: TupleKind,
     /// Current field index being serialized.
     idx: usize,
-    /// For normal tuples: target indentation depth.
+    /// For normal tuples: indentation depth of the sequence items.
     /// For weak/strong: temporary storage (ptr id or state).
     depth_for_normal: usize,
 
@@ -1908,20 +1918,19 @@ pub struct TupleSer<'a, 'b, W: Write> {
     comment_text: Option<String>,
 }
 enum TupleKind {
-    Normal,       // treat as block seq
+    Normal { flow: bool }, // an ordinary tuple struct: a sequence (state of its `SeqSer`)
     AnchorStrong, // [ptr, value]
     AnchorWeak,   // [ptr, present, value]
     Commented,    // [comment, value]
 }
 impl<'a, 'b, W: Write> TupleSer<'a, 'b, W> {
     /// Create a tuple serializer for normal tuple-structs.
-    fn normal(ser: &'a mut YamlSerializer<'b, W>) -> Self {
-        let depth_next = ser.depth + 1;
+    fn normal(ser: &'a mut YamlSerializer<'b, W>, depth: usize, flow: bool) -> Self {
         Self {
             ser,
-            kind: TupleKind::Normal,
+            kind: TupleKind::Normal { flow },
             idx: 0,
-            depth_for_normal: depth_next,
+            depth_for_normal: depth,
             strong_alias_id: None,
             weak_present: false,
             skip_third: false,
@@ -1979,17 +1988,14 @@ impl<'a, 'b, W: Write> SerializeTupleStruct for TupleSer<'a, 'b, W> {
 
     fn serialize_field<T: ?Sized + Serialize>(&mut self, value: &T) -> Result<()> {
         match self.kind {
-            TupleKind::Normal => {
-                if self.idx == 0 {
-                    self.ser.write_anchor_for_complex_node()?;
-                    if !self.ser.at_line_start {
-                        self.ser.newline()?;
-                    }
-                }
-                self.ser.write_indent(self.ser.depth + 1)?;
-                self.ser.out.write_str("- ")?;
-                self.ser.at_line_start = false;
-                value.serialize(&mut *self.ser)?;
+            TupleKind::Normal { flow } => {
+                let mut seq = SeqSer {
+                    ser: &mut *self.ser,
+                    depth: self.depth_for_normal,
+                    flow,
+                    first: self.idx == 0,
+                };
+                SerializeSeq::serialize_element(&mut seq, value)?;
             }
             TupleKind::AnchorStrong => {
                 match self.idx {
@@ -2116,6 +2122,15 @@ impl<'a, 'b, W: Write> SerializeTupleStruct for TupleSer<'a, 'b, W> {
     }
 
     fn end(self) -> Result<()> {
+        if let TupleKind::Normal { flow } = self.kind {
+            let mut seq = SeqSer {
+                ser: self.ser,
+                depth: self.depth_for_normal,
+                flow,
+                first: self.idx == 0,
+            };
+            seq.finish()?;
+        }
         Ok(())
     }
 }
